@@ -1,9 +1,12 @@
 /- C04 line-protocol driver (core-only). -/
 import BV.C04.Model
+import BV.C04.C03Alg
 namespace BV.C04.Driver
 open BV.C04
 
-abbrev A := SetAlg
+/-- The driver runs the model on C03's protocol definitions of the unspent-output set
+(`BV.C04.C03Alg`: `applyBlock`, `journalOf`, `undoBlock`, `blockOk` of BV.C03). -/
+abbrev A := C03Alg
 
 structure PBlk where
   id : Nat
@@ -83,10 +86,20 @@ def rowsStr (r : Rows) : String :=
     | some e => s!"{i}/{statusNum e.1 e.2}"
     | none => "?"))
 
-def persStr (img : Image A) : String :=
+/-- every outpoint a block of the workload can create: `8*id + j`, output 0 -/
+def candsOf (ops : List Op) : List Nat :=
+  sortNat (ops.flatMap (fun o => match o with
+    | .deliver b p => (b :: p).flatMap (fun x => (List.range (x.spends.length + 1)).map (fun j => 8 * x.id + j))
+    | _ => []))
+
+/-- the unspent outpoints of a C03 set among the candidates, ascending -/
+def utxoStr (cands : List Nat) (u : C03State) : String :=
+  natsStr (cands.filter (fun o => (u.set (o, 0)).isSome))
+
+def persStr (cands : List Nat) (img : Image A) : String :=
   let marker := match img.marker with | none => "-" | some m => toString (cid m)
   let hidx := if img.created then natsStr ((suffixes img.best).reverse.map cid) else "-"
-  s!"best={cid img.best} marker={marker} rows={rowsStr img.rows} stored={natsStr (sortNat (img.stored.map cid))} journal={natsStr (sortNat (img.journal.map cid))} hidx={hidx} nutxo={img.utxo.1.length}"
+  s!"best={cid img.best} marker={marker} rows={rowsStr img.rows} stored={natsStr (sortNat (img.stored.map cid))} journal={natsStr (sortNat (img.journal.map cid))} hidx={hidx} nutxo={(cands.filter (fun o => (img.utxo.set (o, 0)).isSome)).length}"
 
 def resStr : Option Res → String
   | none => "ok"
@@ -151,7 +164,7 @@ def ackedAt (recs : List OpRec) (k : Nat) : List Chain :=
   recs.filterMap (fun r => if r.e ≤ k then r.acked else none)
 
 /-- reopen an image and feed the deliveries again: `r=… fin=…`. -/
-def reopenStr (cfg : Cfg) (img : Image A) (acked : List Chain) (ops : List Op) (specTip : Chain) : String :=
+def reopenStr (cfg : Cfg) (cands : List Nat) (img : Image A) (acked : List Chain) (ops : List Op) (specTip : Chain) : String :=
   match recover cfg img with
   | .error _ => "r=must-reopen"   -- the Spec's demand: every crash image reopens
   | .ok rn =>
@@ -166,7 +179,7 @@ def reopenStr (cfg : Cfg) (img : Image A) (acked : List Chain) (ops : List Op) (
     let sj := (onDisk.filter (fun c => match c with
       | [] => false
       | b :: _ => b.spends.isEmpty || c ∈ rn.img.journal)).length
-    s!"r=ok,{cid rn.tip},{chain},{natsStr rn.utxo.1},{missing} mc={mc} bb={bb} sj={sj} bs={rn.tip.length}/{numTx rn.tip}/{totalTx rn.tip} fin={cid specTip};{cid after.tip};{natsStr after.utxo.1}"
+    s!"r=ok,{cid rn.tip},{chain},{utxoStr cands rn.utxo},{missing} mc={mc} bb={bb} sj={sj} bs={rn.tip.length}/{numTx rn.tip}/{totalTx rn.tip} fin={cid specTip};{cid after.tip};{utxoStr cands after.utxo}"
 
 def resList (recs : List OpRec) : String := ".".intercalate (recs.map (fun r => resStr r.res))
 
@@ -178,7 +191,7 @@ def handleImg (cfg cfg2 : Cfg) (base : Image A) (ops : List Op) (k : Nat) : Stri
     let n := fin.log.length
     if k > n then s!"n={n} out-of-range" else
     let img := replay base (fin.log.take k)
-    s!"n={n} res={resList recs} sv=0 {persStr img} w={windowStr fin.log recs k} {reopenStr cfg2 img (ackedAt recs k) ops fin.tip}"
+    s!"n={n} res={resList recs} sv=0 {persStr (candsOf ops) img} w={windowStr fin.log recs k} {reopenStr cfg2 (candsOf ops) img (ackedAt recs k) ops fin.tip}"
 
 def handleImg2 (cfg cfg2 cfg3 : Cfg) (base : Image A) (ops : List Op) (k j : Nat) : String :=
   match recover cfg base with
@@ -196,7 +209,7 @@ def handleImg2 (cfg cfg2 cfg3 : Cfg) (base : Image A) (ops : List Op) (k j : Nat
       if j > n2 then s!"n={n} n2={n2} out-of-range" else
       let img2 := replay img (fin2.log.take j)
       let acked := ackedAt recs k ++ ackedAt recs2 j
-      s!"n={n} n2={n2} res2={resList recs2} {persStr img2} w1={windowStr fin.log recs k} w={windowStr fin2.log recs2 j} {reopenStr cfg3 img2 acked ops fin.tip}"
+      s!"n={n} n2={n2} res2={resList recs2} {persStr (candsOf ops) img2} w1={windowStr fin.log recs k} w={windowStr fin2.log recs2 j} {reopenStr cfg3 (candsOf ops) img2 acked ops fin.tip}"
 
 def parsePrune (s : String) : Option (Option (Nat × Nat)) :=
   if s == "0" then some none else
